@@ -84,6 +84,7 @@ def run(tier, seed, replay=None):
     rich["collide_two"] = H + GL + "table(sub) cA > cB; endtable;\ntable(pos) pass(1) {CollisionFix = 1} endpass; pass(2) {CollisionFix = 2; AutoKern = 1} cA {collision.flags = 3} cB; endpass; pass(3) cB {shift.y = 3m}; endpass; endtable;\n"
     rich["sparse_passes"] = H + GL + "table(sub) pass(2) cA > cB; endpass; pass(5) cB > cA / cA _; endpass; endtable;\ntable(pos) pass(3) cA {kern.x = 4m} cB; endpass; endtable;\n"
     rich["lb_items"] = H + GL + "table(sub) cA > cB / # _; cB > cA / _ #; cA cB > cB cA / # _ _ #; endtable;\n"
+    rich["justification_pass"] = H + "table(glyph) cA = glyphid(3..6) {justify.0.stretch = 100m; justify.0.weight = 2}; cK = glyphid(7); cB = glyphid(8); endtable;\ntable(sub) cA > cB; endtable;\ntable(justification) cA _ > @1 cK:1; endtable;\ntable(pos) cB {advance.x += 5m}; endtable;\n"
     rich["g_two_missing_in_context"] = H + 'table(glyph) cX = (unicode(0x4E00), unicode(0x4E01), codepoint("a")); cA = glyphid(3..6); cB = glyphid(7..10); endtable;\ntable(sub) cA > cB / cX _; endtable;\n'
     rich["g_missing_in_subst"] = H + "table(glyph) cA = unicode(0x61, 0x1234, 0x62); cB = glyphid(7..9); endtable;\ntable(sub) cA > cB; endtable;\n"
     rfont = _ttf.simple_font(40, post_names=[".notdef"] + ["g%d" % i for i in range(1, 40)])[0]
@@ -111,9 +112,12 @@ def run(tier, seed, replay=None):
                 bad.append("libgraphite2 rejects the font (gr_make_file_face/gr_make_seg failed)")
             if bad:
                 d = harness.save_case(rep, r, nm)
+                sig = None
+                if rname == "justification_pass" and bad == ["libgraphite2 rejects the font (gr_make_file_face/gr_make_seg failed)"]:
+                    sig = "C03:font-with-a-justification-pass-rejected-by-libgraphite2"
                 rep.violation(nm, {"case": nm, "options": opts, "checker_lines": bad, "gdl": rich[rname],
                                    "meaning": "out.ttf written with exit status 0 is not well-formed at the named table/offset/code block",
-                                   "rerun": "cd %s && printf 'font out.ttf\\nc03\\n' | %s" % (d, common.grcv_path())})
+                                   "rerun": "cd %s && printf 'font out.ttf\\nc03\\n' | %s" % (d, common.grcv_path())}, signature=sig)
             stats["rich_fonts_checked"] += 1
             shutil.rmtree(r["dir"], ignore_errors=True)
     # corpus: recorded witnesses of known findings (must keep reproducing to stay listed; a fixed tree simply passes)
